@@ -2225,9 +2225,15 @@ pub mod verif_trace {
                 .exc_handlers
                 .iter()
                 .map(|h| {
+                    // offsets are relative to the code of the frame that pushed the handler
+                    let base = fiber
+                        .frames
+                        .get(h.frame_count.wrapping_sub(1))
+                        .map(|f| f.closure.function.chunk.code.as_ptr() as isize)
+                        .unwrap_or(0);
                     (
-                        h.catch_ip as isize,
-                        h.finally_ip as isize,
+                        h.catch_ip as isize - base,
+                        h.finally_ip as isize - base,
                         h.init_stack_size,
                         h.frame_count,
                     )
